@@ -286,7 +286,19 @@ impl HtmlWorld {
                 let p = if rng.chance(2, 5) { gen_tok_pipeline(rng, true) } else { gen_tree_pipeline(rng, true, true) };
                 (input, p)
             },
-            HProp::C05 | HProp::C18 => (gen_input(rng, thorough), gen_tree_pipeline(rng, true, true)),
+            HProp::C05 | HProp::C18 => {
+                let mut input = gen_input(rng, thorough);
+                if self.prop == HProp::C18 && rng.chance(2, 3) {
+                    // more script pauses: that is where scripts edit the DOM and collections bite
+                    for _ in 0..rng.range(1, 3) {
+                        let n = input.chars().count();
+                        let at = rng.below(n + 1);
+                        let byte = input.char_indices().nth(at).map(|(b, _)| b).unwrap_or(input.len());
+                        input.insert_str(byte, rng.pick_str(&["<script>x</script>", "<script></script>", "<svg><script>s</script></svg>", "</script>", "<script>"]));
+                    }
+                }
+                (input, gen_tree_pipeline(rng, true, true))
+            },
             HProp::C06 => (gen_input(rng, thorough), gen_tree_pipeline(rng, false, false)),
             HProp::C08 => {
                 let f = *rng.pick(FLIPS);
@@ -727,6 +739,33 @@ thread_local! {
     static C19_META_NO_INDICATOR: std::cell::Cell<u64> = const { std::cell::Cell::new(0) };
 }
 
+/// Case-preserving disguise of the two attribute names that make a meta element declare an
+/// encoding (`undo` reverses it).
+fn disguise(s: &str, undo: bool) -> String {
+    let chars: Vec<char> = s.chars().collect();
+    let mut out = chars.clone();
+    let pats: [(&str, char, char); 2] = [("charse", 't', 'x'), ("http-equi", 'v', 'x')];
+    for (stem, from, to) in pats {
+        let (from, to) = if undo { (to, from) } else { (from, to) };
+        let st: Vec<char> = stem.chars().collect();
+        let n = st.len();
+        if chars.len() <= n {
+            continue;
+        }
+        for i in 0..chars.len() - n {
+            if (0..n).all(|k| chars[i + k].to_ascii_lowercase() == st[k]) {
+                let c = chars[i + n];
+                if c == from {
+                    out[i + n] = to;
+                } else if c == from.to_ascii_uppercase() {
+                    out[i + n] = to.to_ascii_uppercase();
+                }
+            }
+        }
+    }
+    out.into_iter().collect()
+}
+
 struct ExpectedIndicator {
     tok_index: usize,
     label: String,
@@ -929,7 +968,33 @@ impl HtmlWorld {
                         r19?;
                         // same indicator sequence and transparent resumption under every schedule
                         let r = run_html(&reference_case(case, &obs.logical), false, false);
-                        compare_runs(&r, &obs, false, true)
+                        compare_runs(&r, &obs, false, true)?;
+                        // "as if nothing had happened": the same document with the declaring attribute
+                        // names disguised (charset -> charsex, http-equiv -> http-equix, same length)
+                        // raises no indicator; after undoing the disguise in the result the trees must agree
+                        if obs.stats.pauses_indicator > 0 {
+                            let lower = case.input.to_ascii_lowercase();
+                            if !lower.contains("charsex") && !lower.contains("http-equix") {
+                                let mut a = case.clone();
+                                a.schedule.pauses.clear();
+                                let mut b = a.clone();
+                                b.input = disguise(&case.input, false);
+                                let oa = run_html(&a, false, false);
+                                let ob = run_html(&b, false, false);
+                                stats.inc("probe_indicator_transparency_comparisons");
+                                if ob.stats.pauses_indicator == 0 {
+                                    let ta = tree_nf(&oa.sink).unwrap_or_default();
+                                    let tb = disguise(&tree_nf(&ob.sink).unwrap_or_default(), true);
+                                    if ta != tb {
+                                        return Err(Violation::new(
+                                            "indicator-resumption-not-transparent",
+                                            format!("tree with the indicator suspension vs. tree of the same document without it: {}", first_line_diff(&tb, &ta)),
+                                        ));
+                                    }
+                                }
+                            }
+                        }
+                        Ok(())
                     },
                     Pipeline::Tok { policy, initial_state, last_start_tag } => {
                         // token stream unchanged when the sink answers Continue instead of EncodingIndicator
